@@ -345,7 +345,8 @@ def r6(fx):
             def apply_mask(matrix, mask_pattern, width, height, is_encoding_region, inner=inner, regions=regions, n=n):
                 regions.append((mask_pattern.k, width, height, tuple(bool(is_encoding_region(i, j)) for i in range(n) for j in range(n))))
                 return inner(matrix, mask_pattern, width, height, is_encoding_region)
-            genv['apply_mask'] = apply_mask
+            from .. import refsig
+            genv['apply_mask'] = refsig.tolerant(fx.forest, 'encoder', 'apply_mask', apply_mask)
             res = FuncVal(fn, genv, it)(genv['make_matrix'](n, n), n, n, requested)
             seen[requested] = (res[0] if isinstance(res, tuple) else res, [r for r in regions if r[0] == 2])
         auto, req = seen[None], seen[2]
